@@ -7,28 +7,33 @@
 From PK Require Import Lib.Bytes Psl.PslSpec Psl.PslModel Psl.PslShipped RpId.RpIdModel RpId.RpIdCheck RpId.RpIdFacts.
 Open Scope N_scope.
 
-(** (1) soundness for EVERY provider, every IDNA oracle, both settings, web and Android origins, all
-    byte strings: an accepted pair has a host; the answer is exactly the effective RP ID; it is the
-    host, or what follows one of the host's dots, or - the part [is_suffix_at_label_boundary]
-    deliberately leaves to the provider - a string suffix of the host that itself starts with a dot;
-    and either this is the enabled exception for the literal host "localhost", or the origin (if a web
-    origin) is https and the provider accepted the RP ID. *)
-Theorem c01_assert_domain_sound : forall allow prov puny o rp r,
-  assert_domain allow prov puny o rp = inl r ->
+(** (1) soundness for EVERY provider, every answer of the idna crate ([puny], [to_ascii]), both settings,
+    web and Android origins, all byte strings: an accepted pair has a host; the answer is exactly the
+    effective RP ID; it is the host, or what follows one of the host's dots, or - the part
+    [is_suffix_at_label_boundary] deliberately leaves to the provider - a string suffix of the host that
+    itself starts with a dot; and either this is the enabled exception for the literal host "localhost",
+    or the origin (if a web origin) is https and the provider accepted the canonical ASCII form
+    [to_ascii r] of the RP ID. *)
+Theorem c01_assert_domain_sound : forall allow prov puny to_ascii o rp r,
+  assert_domain allow prov puny to_ascii o rp = inl r ->
   exists h, host_of o = Some h /\ effective o rp = Some r /\
     (h = r \/ (exists p, h = p ++ DOT :: r) \/ (starts_with_dot r = true /\ exists p, h = p ++ r)) /\
     ((allow = true /\ is_web o = true /\ r = LOCALHOST /\ host_of o = Some LOCALHOST) \/
-     ((is_web o = true -> eq_ignore_ascii_case (scheme_of o) HTTPS = true) /\ prov r <> None)).
+     ((is_web o = true -> eq_ignore_ascii_case (scheme_of o) HTTPS = true) /\
+      exists a, to_ascii r = Some a /\ prov a <> None)).
 Proof. exact assert_domain_sound. Qed.
 
-(** (2) for a provider that refuses names with an empty label only true label boundaries remain *)
-Theorem c01_assert_domain_sound_label_boundary : forall allow prov puny o rp r,
+(** (2) for a provider that refuses names with an empty label, asked about an ASCII form that keeps a
+    leading dot, only true label boundaries remain *)
+Theorem c01_assert_domain_sound_label_boundary : forall allow prov puny to_ascii o rp r,
   (forall x, has_empty_label x = true -> prov x = None) ->
-  assert_domain allow prov puny o rp = inl r ->
+  (forall x a, to_ascii x = Some a -> starts_with_dot x = true -> has_empty_label a = true) ->
+  assert_domain allow prov puny to_ascii o rp = inl r ->
   exists h, host_of o = Some h /\ effective o rp = Some r /\
     (h = r \/ exists p, h = p ++ DOT :: r) /\
     ((allow = true /\ is_web o = true /\ r = LOCALHOST /\ host_of o = Some LOCALHOST) \/
-     ((is_web o = true -> eq_ignore_ascii_case (scheme_of o) HTTPS = true) /\ prov r <> None)).
+     ((is_web o = true -> eq_ignore_ascii_case (scheme_of o) HTTPS = true) /\
+      exists a, to_ascii r = Some a /\ prov a <> None)).
 Proof. exact assert_domain_sound_label_boundary. Qed.
 
 (** ... and the default provider is one (by C10's [etld1_correct]) *)
@@ -39,39 +44,53 @@ Proof. exact default_provider_rejects_empty_labels. Qed.
 Theorem c01_default_provider_is_the_list : forall x, default_provider x = psl_etld1 RULES x.
 Proof. exact default_provider_spec. Qed.
 
-Theorem c01_assert_domain_sound_default : forall allow puny o rp r,
-  assert_domain allow default_provider puny o rp = inl r ->
+Theorem c01_assert_domain_sound_default : forall allow puny to_ascii o rp r,
+  (forall x a, to_ascii x = Some a -> starts_with_dot x = true -> has_empty_label a = true) ->
+  assert_domain allow default_provider puny to_ascii o rp = inl r ->
   exists h, host_of o = Some h /\ effective o rp = Some r /\
     (h = r \/ exists p, h = p ++ DOT :: r) /\
     ((allow = true /\ is_web o = true /\ r = LOCALHOST /\ host_of o = Some LOCALHOST) \/
-     ((is_web o = true -> eq_ignore_ascii_case (scheme_of o) HTTPS = true) /\ default_provider r <> None)).
+     ((is_web o = true -> eq_ignore_ascii_case (scheme_of o) HTTPS = true) /\
+      exists a, to_ascii r = Some a /\ default_provider a <> None)).
 Proof. exact assert_domain_sound_default. Qed.
 
-(** (3) with the default provider an accepted RP ID (outside the localhost exception) is a registrable
-    domain under the publicsuffix.org algorithm on the shipped rule file - every IDN rule in its
-    punycode form included: no empty label, strictly more labels than its public suffix, not a public
-    suffix *)
-Theorem c01_assert_domain_registrable_default : forall allow puny o rp r,
-  assert_domain allow default_provider puny o rp = inl r ->
+(** (3) with the default provider, for an accepted RP ID (outside the localhost exception) the canonical
+    ASCII form is a registrable domain under the publicsuffix.org algorithm on the shipped rule file -
+    every IDN rule in its punycode form included: no empty label, strictly more labels than its public
+    suffix, not a public suffix.  So an upper-case or Unicode spelling of a public suffix is refused. *)
+Theorem c01_assert_domain_registrable_default : forall allow puny to_ascii o rp r,
+  assert_domain allow default_provider puny to_ascii o rp = inl r ->
+  (allow = true /\ is_web o = true /\ r = LOCALHOST /\ host_of o = Some LOCALHOST) \/
+  exists a, to_ascii r = Some a /\
+   (has_empty_label a = false /\
+    (psl_len beq RULES (dom_labels a) < length (dom_labels a))%nat /\
+    psl_is_suffix RULES a = false /\
+    exists e, psl_etld1 RULES a = Some e).
+Proof. exact assert_domain_registrable_default. Qed.
+
+(** ... and for an RP ID that is its own ASCII form (lower-case ASCII, punycode) it is the RP ID itself *)
+Theorem c01_assert_domain_registrable_default_ascii : forall allow puny to_ascii o rp r,
+  to_ascii r = Some r ->
+  assert_domain allow default_provider puny to_ascii o rp = inl r ->
   (allow = true /\ is_web o = true /\ r = LOCALHOST /\ host_of o = Some LOCALHOST) \/
   (has_empty_label r = false /\
    (psl_len beq RULES (dom_labels r) < length (dom_labels r))%nat /\
    psl_is_suffix RULES r = false /\
    exists e, psl_etld1 RULES r = Some e).
-Proof. exact assert_domain_registrable_default. Qed.
+Proof. exact assert_domain_registrable_default_ascii. Qed.
 
 (** (4) the converse on well-formed input (the theorems above are not satisfied by refusing everything) *)
-Theorem c01_assert_domain_complete : forall allow prov puny o rp h r,
+Theorem c01_assert_domain_complete : forall allow prov puny to_ascii o rp h r,
   host_of o = Some h -> effective o rp = Some r ->
   (h = r \/ exists p, h = p ++ DOT :: r) ->
   (is_web o = true -> eq_ignore_ascii_case (scheme_of o) HTTPS = true) ->
-  prov r <> None -> decode_host puny r = true -> r <> LOCALHOST ->
-  assert_domain allow prov puny o rp = inl r.
+  (exists a, to_ascii r = Some a /\ prov a <> None) -> decode_host puny r = true -> r <> LOCALHOST ->
+  assert_domain allow prov puny to_ascii o rp = inl r.
 Proof. exact assert_domain_complete. Qed.
 
-Theorem c01_assert_domain_complete_localhost : forall prov puny scheme rp,
+Theorem c01_assert_domain_complete_localhost : forall prov puny to_ascii scheme rp,
   rp = None \/ rp = Some LOCALHOST ->
-  assert_domain true prov puny (Web scheme (Some LOCALHOST)) rp = inl LOCALHOST.
+  assert_domain true prov puny to_ascii (Web scheme (Some LOCALHOST)) rp = inl LOCALHOST.
 Proof. exact assert_domain_complete_localhost. Qed.
 
 (** (5) "label boundary" said with labels: the labels of [r] are the last labels of [h] (this is the
@@ -81,9 +100,12 @@ Theorem c01_boundary_is_label_suffix : forall h r,
 Proof. exact boundary_iff_labels. Qed.
 
 (** (6) the run-time oracle [c01_ok] is true on every answer of the model, for the four providers of
-    the correspondence run *)
-Theorem c01_oracle_on_model : forall allow pk puny o rp,
-  c01_ok allow pk o rp (res_code (assert_domain allow (provider_of pk) puny o rp)) = true.
+    the correspondence run, whenever the crate's ASCII form is the canonical form given to the oracle
+    and keeps a leading dot *)
+Theorem c01_oracle_on_model : forall allow pk puny to_ascii o rp canon,
+  (forall r a, effective o rp = Some r -> to_ascii r = Some a ->
+     a = canon /\ (starts_with_dot r = true -> has_empty_label a = true)) ->
+  c01_ok allow pk o rp canon (res_code (assert_domain allow (provider_of pk) puny to_ascii o rp)) = true.
 Proof. exact oracle_on_model. Qed.
 
 (** one example per accepting branch (strings as bytes) and the three repaired defects.
@@ -94,32 +116,42 @@ Definition evil : bytes := [101;118;105;108] ++ ex.
 Definition cn : bytes := [120;110;45;45;53;53;113;120;53;100;46;99;110].
 Definition HTTP : bytes := [104;116;116;112].
 Definition yes (_ : bytes) := true.
+Definition same (x : bytes) := Some x.   (* an RP ID that is its own ASCII form *)
 
-Example c01_ex_web_no_rp : assert_domain false default_provider yes (Web HTTPS (Some wex)) None = inl wex.
+Example c01_ex_web_no_rp : assert_domain false default_provider yes same (Web HTTPS (Some wex)) None = inl wex.
 Proof. vm_compute. reflexivity. Qed.
-Example c01_ex_web_rp_is_host : assert_domain false default_provider yes (Web HTTPS (Some ex)) (Some ex) = inl ex.
+Example c01_ex_web_rp_is_host : assert_domain false default_provider yes same (Web HTTPS (Some ex)) (Some ex) = inl ex.
 Proof. vm_compute. reflexivity. Qed.
-Example c01_ex_web_rp_label_suffix : assert_domain false default_provider yes (Web HTTPS (Some wex)) (Some ex) = inl ex.
+Example c01_ex_web_rp_label_suffix : assert_domain false default_provider yes same (Web HTTPS (Some wex)) (Some ex) = inl ex.
 Proof. vm_compute. reflexivity. Qed.
-Example c01_ex_localhost : assert_domain true default_provider yes (Web HTTP (Some LOCALHOST)) None = inl LOCALHOST.
+Example c01_ex_localhost : assert_domain true default_provider yes same (Web HTTP (Some LOCALHOST)) None = inl LOCALHOST.
 Proof. vm_compute. reflexivity. Qed.
-Example c01_ex_android : assert_domain false default_provider yes (Android wex) (Some ex) = inl ex.
+Example c01_ex_android : assert_domain false default_provider yes same (Android wex) (Some ex) = inl ex.
 Proof. vm_compute. reflexivity. Qed.
 (** F1: a character-level suffix that is not label aligned *)
 Example c01_ex_not_label_aligned :
-  assert_domain false default_provider yes (Web HTTPS (Some evil)) (Some ex) = inr OriginRpMissmatch.
+  assert_domain false default_provider yes same (Web HTTPS (Some evil)) (Some ex) = inr OriginRpMissmatch.
 Proof. vm_compute. reflexivity. Qed.
 (** F2: an IDN public suffix in punycode form *)
 Example c01_ex_idn_public_suffix :
-  assert_domain false default_provider yes (Web HTTPS (Some ([97;46] ++ cn))) (Some cn) = inr InvalidRpId.
+  assert_domain false default_provider yes same (Web HTTPS (Some ([97;46] ++ cn))) (Some cn) = inr InvalidRpId.
 Proof. vm_compute. reflexivity. Qed.
 (** F3: foo.localhost with RP ID localhost *)
 Example c01_ex_sub_localhost :
-  assert_domain true default_provider yes (Web HTTP (Some ([102;111;111;46] ++ LOCALHOST))) (Some LOCALHOST) = inr InvalidRpId.
+  assert_domain true default_provider yes same (Web HTTP (Some ([102;111;111;46] ++ LOCALHOST))) (Some LOCALHOST) = inr InvalidRpId.
+Proof. vm_compute. reflexivity. Qed.
+(** F13: an upper-case / Unicode spelling of a public suffix ("CO.UK" canonical form "co.uk"; "公司.cn"
+    canonical form "xn--55qx5d.cn") on an Android origin *)
+Example c01_ex_uppercase_public_suffix :
+  assert_domain false default_provider yes (fun _ => Some [99;111;46;117;107]) (Android [67;79;46;85;75]) None = inr InvalidRpId.
+Proof. vm_compute. reflexivity. Qed.
+Example c01_ex_unicode_public_suffix :
+  assert_domain false default_provider yes (fun _ => Some cn)
+    (Android ([115;105;116;101;46] ++ [229;133;172;229;143;184;46;99;110])) (Some [229;133;172;229;143;184;46;99;110]) = inr InvalidRpId.
 Proof. vm_compute. reflexivity. Qed.
 (** a provider that accepts everything lets ".com" through for "example.com": the third disjunct of (1) is real *)
 Example c01_ex_leading_dot_lax_provider :
-  assert_domain false (fun d => Some d) yes (Web HTTPS (Some ex)) (Some [46;99;111;109]) = inl [46;99;111;109].
+  assert_domain false (fun d => Some d) yes same (Web HTTPS (Some ex)) (Some [46;99;111;109]) = inl [46;99;111;109].
 Proof. vm_compute. reflexivity. Qed.
 
 Print Assumptions c01_assert_domain_sound.
@@ -128,6 +160,7 @@ Print Assumptions c01_default_provider_rejects_empty_labels.
 Print Assumptions c01_default_provider_is_the_list.
 Print Assumptions c01_assert_domain_sound_default.
 Print Assumptions c01_assert_domain_registrable_default.
+Print Assumptions c01_assert_domain_registrable_default_ascii.
 Print Assumptions c01_assert_domain_complete.
 Print Assumptions c01_assert_domain_complete_localhost.
 Print Assumptions c01_boundary_is_label_suffix.
